@@ -103,6 +103,8 @@ func genStop(c *ctx) {
 		rng := rand.New(rand.NewSource(c.rng.Int63()))
 		cfg := e2eCfg{upload: b%2 == 0, binary: (b/2)%2 == 0, directory: b%3 == 0, overwrite: b%4 == 1 || b%3 == 0, proto: []int{-1, 2, 0, 4, 3}[b%5],
 			timeout: 5, quiet: b%2 == 1, bufsize: "4k", deadline: 30 * time.Second}
+		cfg.tunnel = b%3 == 1 // the transfer runs over a direct tunnel connection (loopback TCP)
+		cfg.hookTunnel = true // ... whose writes are stop boundaries like the in-band ones
 		tops := stopTree(rng, root, cfg.directory)
 		counts := baselineCounts(cfg, tops, root)
 		per := c.pick(10, 80)
@@ -196,6 +198,20 @@ func genStop(c *ctx) {
 			s.outcome = stopped
 		default:
 			s.outcome = "error"
+		}
+		if s.del && !stopAt.IsZero() && s.outcome == "Stopped" && s.who != "server" && res.clientDone && res.serverExited {
+			// the user chose stop-and-delete but what is shown is a plain "Stopped": was anything left behind?
+			for k := range after {
+				if _, ok := before[k]; !ok {
+					s.bad = append(s.bad, "delete-not-honoured: shown \"Stopped\" after a stop-and-delete, left behind "+k)
+					break
+				}
+			}
+		}
+		if !stopAt.IsZero() && s.outcome == "error" {
+			// each side reports that it was stopped (or success): any other final message after a
+			// delivered stop means a side was not told / did not notice
+			s.bad = append(s.bad, fmt.Sprintf("not-reported-as-stopped: after the stop the transfer ended with %q", tailStr(shown, 200)))
 		}
 		if !stopAt.IsZero() && s.dur > 8*time.Second {
 			s.bad = append(s.bad, fmt.Sprintf("slow-stop: both sides needed %.1fs after the stop", s.dur.Seconds()))
@@ -319,7 +335,7 @@ func genHang(c *ctx) {
 		res      e2eResult
 	}
 	var cases []*hc
-	kinds := []string{"silence", "discard-one", "close-stdin", "source-shrinks", "source-unreadable", "dest-readonly", "silence-pause-resume"}
+	kinds := []string{"silence", "discard-one", "close-stdin", "source-shrinks", "source-unreadable", "dest-readonly", "silence-pause-resume", "cut-mid-write", "dest-full"}
 	nb := c.pick(6, 16)
 	const timeout = 2
 	for b := 0; b < nb; b++ {
@@ -343,7 +359,10 @@ func genHang(c *ctx) {
 			} else {
 				h.idx = lo
 			}
-			h.desc = fmt.Sprintf("%s at %s write #%d/%d :: %s", h.kind, []string{"c2s", "s2c"}[h.dir], h.idx, counts[h.dir], describeCfg(cfg))
+			if h.kind == "dest-full" {
+				h.cfg.overwrite = true // the existing name (a link to /dev/full) is opened for writing
+			}
+			h.desc = fmt.Sprintf("%s at %s write #%d/%d :: %s", h.kind, []string{"c2s", "s2c"}[h.dir], h.idx, counts[h.dir], describeCfg(h.cfg))
 			cases = append(cases, h)
 		}
 	}
@@ -360,6 +379,16 @@ func genHang(c *ctx) {
 		os.MkdirAll(dest, 0755)
 		cfg := h.cfg
 		dir, idx := h.dir, h.idx
+		if h.kind == "dest-full" {
+			// the destination of the largest file accepts no byte (ENOSPC on every write): with
+			// overwrite on, the existing name - a link to /dev/full - is opened for writing
+			if cfg.directory {
+				os.MkdirAll(filepath.Join(dest, "tree", "sub"), 0755)
+				os.Symlink("/dev/full", filepath.Join(dest, "tree", "one.bin"))
+			} else {
+				os.Symlink("/dev/full", filepath.Join(dest, "f1.bin"))
+			}
+		}
 		var run *e2eRun
 		var runMu sync.Mutex
 		cfg.onStart = func(r *e2eRun) { runMu.Lock(); run = r; runMu.Unlock() }
@@ -382,6 +411,12 @@ func genHang(c *ctx) {
 			}
 			switch h.kind {
 			case "silence":
+				return e2eAction{silence: true, drop: true}
+			case "cut-mid-write":
+				// the connection dies in the middle of a message: half of this write arrives, then nothing
+				if len(b) > 1 {
+					return e2eAction{data: [][]byte{b[:len(b)/2]}, silence: true}
+				}
 				return e2eAction{silence: true, drop: true}
 			case "silence-pause-resume":
 				// the peer falls silent; while a read is pending the user pauses and resumes
@@ -462,6 +497,7 @@ func genHang(c *ctx) {
 		c.note(true, h.desc+" => "+h.outcome+fmt.Sprintf(" (%.2fs)", h.res.dur.Seconds()))
 		c.count("outcome:" + h.outcome)
 		c.count("kind:" + h.kind)
+		c.count("kind-outcome:" + h.kind + ":" + h.outcome)
 		if len(h.bad) > 0 {
 			key := "hang:" + h.kind + ":" + strings.SplitN(h.bad[0], ":", 2)[0]
 			c.violate(key, "a fault did not end the transfer with an error on both sides in time", h.desc+" :: "+strings.Join(h.bad, "; "))
